@@ -42,6 +42,7 @@ CLAUSE_PROPERTY = {
     "TR_ModesOK": "C14",
     "TR_ModesExist": "C14",
     "TR_WeightsIntact": "C05",
+    "TR_ModelStable": "C14",
     "RS_WholeCopies": "C07",
     "RS_Count": "C06",
     "RS_LabelRange": "C14",
@@ -359,6 +360,7 @@ class Recorder:
         core = r["core"]
         st = core.state
         self._ev = []
+        self._fallback_seen = None
         # (calls reported at entry, user-level evaluations counted when run() was entered): evaluations made while resuming, before
         # this hook, are part of the run
         mark = getattr(self, "_entry_mark", None)
@@ -566,11 +568,38 @@ class Recorder:
         else:
             labels = [-1] * int(getattr(ms, "K", 1))     # no fit observed in this iteration: these modes do not come from the current pool
         self._last_modes = (ms, labels)
+        # the labelling function the modes were built with is the one the resampling step will use: the model has not changed
+        # between labelling the training particles and the end of the training step
+        model_stable = True
+        if (nstud > 0 and self._pred_calls and cl is not None and getattr(self, "check_labels_from_model", True)
+                and getattr(self, "_orig_predict", None) is not None and self._clusterer_fits > 0):
+            Xl, labl = self._pred_calls[-1]
+            try:
+                now = np.asarray(self._orig_predict(Xl))
+                model_stable = bool(now.shape == np.asarray(labl).shape and np.array_equal(now, labl))
+            except Exception:
+                model_stable = True   # a failing predict is reported where the library itself calls it
         w_now = np.asarray(r["weights"], dtype=float)
         w0 = getattr(self, "_w_handed", None)
         intact = w0 is None or (w_now.shape == w0.shape and bool(np.allclose(w_now, w0, rtol=RTOL, atol=1e-300)))
+        # a non-finite fitted dof is replaced by ONE configured fallback, the same in every branch of the training step: the first
+        # replacement value observed in a run is the configured one
+        fb_ok = True
+        try:
+            dofs = np.asarray(ms.degrees_of_freedom, dtype=float)
+            if nstud == len(dofs):
+                for j, (_, res) in enumerate(self._stud_calls):
+                    raw = float(res[2]) if res is not None else float("nan")
+                    if not np.isfinite(raw) and np.isfinite(dofs[j]):
+                        if getattr(self, "_fallback_seen", None) is None:
+                            self._fallback_seen = float(dofs[j])
+                        elif float(dofs[j]) != self._fallback_seen:
+                            fb_ok = False
+        except Exception:
+            fb_ok = True
         self._emit("Train", branch=branch, fitted=bool(self._clusterer_fits > 0), K=K, modes=labels,
-                   modesOK=self._mode_info(ms), nModes=int(getattr(ms, "K", 0)), wtsOut=self._wtag if intact else self._wtag + 1)
+                   modesOK=bool(self._mode_info(ms) and fb_ok), nModes=int(getattr(ms, "K", 0)), wtsOut=self._wtag if intact else self._wtag + 1,
+                   modelStable=bool(model_stable))
 
     def _on_resampled(self, r):
         core = r["core"]
